@@ -562,7 +562,7 @@ func c34Scenarios(thorough bool) []*explore.Scenario {
 func init() {
 	register(&Prop{ID: "C34", Level: "exploration", Variant: "A", Scenarios: c34Scenarios,
 		Run: func(c *explore.Check, thorough bool) {
-			c.Rule = "ClientHello of every discovered ID, custom specs, real-ECH outer hellos (server holding the matching key) and a PSK hello x server {with, without ECH keys} x mutation {every byte position (all for <= 300 B, else head/stride/tail) x values {00, ff, ^01 (+7f, 80)}, truncation to every such length, every extension body truncated to every length with all outer prefixes fixed, every key share resized to {0,1,31,32,33,64,65,100,600,1183,1184,1185,1215,1217} bytes with consistent prefixes}; complete flights of 6 clients x {1.3,1.2} x client auth in which the client inserts an extra handshake message of type {8,25,99,4,24,1,11,20} with 0/2/300-byte body before/after each of its own messages (client-side verif hook); two-hello inputs: a first hello without a usable share (forcing a HelloRetryRequest) and a second hello, each carrying one of 5 ECH extension shapes {absent, inner marker, outer all-zero, outer GREASE-like, real outer} x 4 second-hello variations x server with/without ECH keys; correctly HPKE-sealed ECH payloads around inner hellos assembled by the harness: 10 ech_outer_extensions shapes x 3 paddings x 3 inner ECH markers x 3 truncations x {once, twice}; every TLS <= 1.2 suite of the server's table (stream, CBC, AEAD; RSA and ECDHE key exchange) x every version it exists in x record type {handshake, application data, alert} x every record length 0..80 sent right after a scripted ClientHello, ClientKeyExchange and ChangeCipherSpec; a returning client's second ClientHello (genuine ticket of this server) with 6 identity-list shapes (junk before / after / around the ticket) x 0..3 binders x 2 binder lengths. Oracle: server Handshake/Read return without panic (watchdog 60 s). distinct = case"
+			c.Rule = "ClientHello of every discovered ID, custom specs, real-ECH outer hellos (server holding the matching key) and a PSK hello x server {with, without ECH keys} x mutation {every byte position (all for <= 300 B, else head/stride/tail) x values {00, ff, ^01 (+7f, 80)}, truncation to every such length, every extension body truncated to every length with all outer prefixes fixed, every key share resized to {0,1,31,32,33,64,65,100,600,1183,1184,1185,1215,1217} bytes with consistent prefixes}; complete flights of 6 clients x {1.3,1.2} x client auth in which the client inserts an extra handshake message of type {8,25,99,4,24,1,11,20} with 0/2/300-byte body before/after each of its own messages (client-side verif hook); two-hello inputs: a first hello without a usable share (forcing a HelloRetryRequest) and a second hello, each carrying one of 5 ECH extension shapes {absent, inner marker, outer all-zero, outer GREASE-like, real outer} x 4 second-hello variations x server with/without ECH keys; correctly HPKE-sealed ECH payloads around inner hellos assembled by the harness: 10 ech_outer_extensions shapes x 3 paddings x 3 inner ECH markers x 3 truncations x {once, twice}; every TLS <= 1.2 suite of the server's table (stream, CBC, AEAD; RSA and ECDHE key exchange) x every version it exists in x record type {handshake, application data, alert} x every record length 0..80 sent right after a scripted ClientHello, ClientKeyExchange and ChangeCipherSpec; a returning client's second ClientHello (genuine ticket of this server) with 6 identity-list shapes (junk before / after / around the ticket) x 0..3 binders x 2 binder lengths; an established TLS 1.3 connection on which 3 clients send KeyUpdate {plain, update_requested} followed by data while the server transport {works, fails every write}: the server Read and a following Close return. Oracle: server Handshake/Read return without panic (watchdog 60 s). distinct = case"
 			c.Assumptions = []string{"small-scope: one mutation per execution from a fixed menu", "QUIC server input is not covered"}
 			runAll(c, c34Scenarios(thorough), 0)
 			c.Gate(c.Total.Counters["server_returned"] > 50000, "non-vacuity: %d server runs", c.Total.Counters["server_returned"])
